@@ -38,6 +38,22 @@ func errNilEdges(call *ssa.Call) []an.CtrlEdge {
 		return nil
 	}
 	alias := an.CellAliases(errv)
+	// an error variable shared by two alternative steps (`err = a()` / `x, err = b()` followed by one
+	// `if err != nil`): the test of the merged value decides this call's error on the path through this call
+	work := []ssa.Value{errv}
+	for len(work) > 0 {
+		x := work[len(work)-1]
+		work = work[:len(work)-1]
+		if x.Referrers() == nil {
+			continue
+		}
+		for _, u := range *x.Referrers() {
+			if phi, ok := u.(*ssa.Phi); ok && !alias[phi] {
+				alias[phi] = true
+				work = append(work, phi)
+			}
+		}
+	}
 	var out []an.CtrlEdge
 	for _, c := range an.EqCases(f, func(v ssa.Value) bool { return alias[v] }) {
 		if an.IsNilConst(c.Key) {
@@ -49,7 +65,12 @@ func errNilEdges(call *ssa.Call) []an.CtrlEdge {
 
 // point is a program point: "in block blk", or — for phi inputs — "on the edge
 // pred -> blk".
-type point struct{ pred, blk *ssa.BasicBlock }
+type point struct {
+	pred, blk *ssa.BasicBlock
+	// via: the value arrives at the point through this block (a phi edge taken earlier); a validating call
+	// must dominate it, while "reachable only through the call's err == nil edge" is asked of the point itself
+	via *ssa.BasicBlock
+}
 
 // reachedWithout reports whether the point can be reached from the call (one
 // dynamic execution of it: the call's own block is not re-entered) when the
@@ -84,7 +105,21 @@ func validatedAt(v ssa.Value, pt point, seen map[ssa.Value]bool) (bool, string) 
 		}
 		seen[v] = true
 		for i, e := range phi.Edges {
-			if ok, why := validatedAt(e, point{phi.Block().Preds[i], phi.Block()}, seen); !ok {
+			if ok, why := validatedAt(e, point{pred: phi.Block().Preds[i], blk: phi.Block()}, seen); !ok {
+				// validated after the merge: `err = check(bs)` / `bs, err = process(bs)` followed by one
+				// `if err != nil`: the point itself is reachable only through the nil edge of the step that
+				// produced / checked this edge's value
+				if pt.blk != phi.Block() || pt.pred != nil {
+					fresh := map[ssa.Value]bool{}
+					for k := range seen {
+						if _, isPhi := k.(*ssa.Phi); isPhi {
+							fresh[k] = true
+						}
+					}
+					if ok2, _ := validatedAt(e, point{pred: pt.pred, blk: pt.blk, via: phi.Block().Preds[i]}, fresh); ok2 {
+						continue
+					}
+				}
 				return false, why
 			}
 		}
@@ -113,6 +148,61 @@ func validatedAt(v ssa.Value, pt point, seen map[ssa.Value]bool) (bool, string) 
 		}
 		helperWhy = why
 	}
+	// handed to a private checking helper that parses it (checkSyntax(name, src) error): the helper's
+	// parameter is the src of a parser.ParseFile whose error the helper returns, and the point is reachable
+	// only when the helper's error was nil
+	for _, c := range an.Calls(f) {
+		call, ok := c.(*ssa.Call)
+		h := an.StaticCallee(c)
+		if !ok || h == nil || !an.InModule(h) || h.Blocks == nil || an.IsCallTo(c, parserParse) {
+			continue
+		}
+		for i, a := range call.Call.Args {
+			if an.Unwrap(a) != v || i >= len(h.Params) {
+				continue
+			}
+			parses := false
+			for _, pc := range an.CallsTo(h, parserParse) {
+				pcall := pc.(*ssa.Call)
+				if an.Unwrap(pcall.Call.Args[2]) != ssa.Value(h.Params[i]) {
+					continue
+				}
+				// every nil error the helper returns is that parse's error being nil
+				okRet := true
+				for _, ret := range an.Returns(h) {
+					ev := ret.Results[len(ret.Results)-1]
+					for _, l := range phiLeaves(ev) {
+						if an.IsNilConst(l) {
+							if reachedWithout(pcall, point{pred: nil, blk: ret.Block()}, errNilEdges(pcall)) || len(errNilEdges(pcall)) == 0 {
+								okRet = false
+							}
+							continue
+						}
+					}
+					if ex, isEx := ev.(*ssa.Extract); isEx && ex.Tuple == ssa.Value(pcall) {
+						continue // returns the parse's own error
+					}
+				}
+				if okRet {
+					parses = true
+				}
+			}
+			if !parses {
+				continue
+			}
+			edges := errNilEdges(call)
+			at := pt.blk
+			if pt.pred != nil {
+				at = pt.pred
+			}
+			if pt.via != nil {
+				at = pt.via
+			}
+			if len(edges) > 0 && !reachedWithout(call, pt, edges) && (call.Block() == at || call.Block().Dominates(at)) {
+				return true, ""
+			}
+		}
+	}
 	// src of a parser.ParseFile
 	for _, c := range an.CallsTo(f, parserParse) {
 		call := c.(*ssa.Call)
@@ -126,6 +216,9 @@ func validatedAt(v ssa.Value, pt point, seen map[ssa.Value]bool) (bool, string) 
 		at := pt.blk
 		if pt.pred != nil {
 			at = pt.pred
+		}
+		if pt.via != nil {
+			at = pt.via
 		}
 		if !reachedWithout(call, pt, edges) && (call.Block() == at || call.Block().Dominates(at)) {
 			return true, ""
@@ -166,7 +259,7 @@ func validatedByHelper(v ssa.Value, pt point, seen map[ssa.Value]bool) (ok bool,
 						if !an.IsNilConst(ret.Results[1]) {
 							return false, short(g) + " returns bytes together with a possibly non-nil error", true
 						}
-						if ok, why := validatedAt(ret.Results[0], point{nil, ret.Block()}, seen); !ok {
+						if ok, why := validatedAt(ret.Results[0], point{pred: nil, blk: ret.Block()}, seen); !ok {
 							return false, "inside " + short(g) + ": " + why, true
 						}
 					}
@@ -246,7 +339,18 @@ func c07ValidateBeforeEmit(r *an.Run, m *runModel) {
 	r.Rule("R1-validate-before-emit")
 	sinks := sinksOfRun(r, m)
 	for _, s := range sinks {
-		ok, why := validatedAt(s.bytes, point{nil, s.call.Block()}, map[ssa.Value]bool{})
+		ok, why := validatedAt(s.bytes, point{pred: nil, blk: s.call.Block()}, map[ssa.Value]bool{})
+		if !ok && s.host != m.run {
+			// the output stage is a function of its own and is handed the bytes: they are validated where
+			// Run hands them over
+			if lv := liftIn(m.run, s.bytes); lv != nil {
+				if site := siteIn(m.run, s.call); site != nil {
+					if in, isInstr := lv.(ssa.Instruction); !isInstr || in.Parent() == m.run {
+						ok, why = validatedAt(lv, point{pred: nil, blk: site.Block()}, map[ssa.Value]bool{})
+					}
+				}
+			}
+		}
 		key := short(m.run) + "|sink|" + an.TrimModule(an.CalleeName(s.call))
 		if ok {
 			r.Pass(key, s.call.Pos(), "%s: on every path the bytes were parsed successfully (imports.Process result or checked parser.ParseFile) before this sink", s.what)
@@ -284,6 +388,20 @@ func c07ErrorEdgesSkipSinks(r *an.Run, m *runModel) {
 					ikey := short(g) + "|on-error|" + an.CalleeName(ic)
 					nilE := errNilEdges(icall)
 					good := len(nilE) > 0
+					if !good {
+						// `_, err := parse(...); return err`: the call's error is what the helper returns
+						ev := errValue(icall)
+						all := ev != nil && len(an.Returns(g)) > 0
+						for _, ret := range an.Returns(g) {
+							if ret.Results[len(ret.Results)-1] != ev {
+								all = false
+							}
+						}
+						if all {
+							r.Pass(ikey, ic.Pos(), "the error of %s is what the helper %s returns", an.CalleeName(ic), short(g))
+							continue
+						}
+					}
 					if !good && tupleReturnedWhole(icall) {
 						// `return imports.Process(...)`: its error is the helper's error
 						r.Pass(ikey, ic.Pos(), "the result of %s, error included, is what the helper %s returns", an.CalleeName(ic), short(g))
@@ -397,7 +515,7 @@ func c07API(r *an.Run) {
 								okAll, why = false, short(g)+" returns bytes together with a possibly non-nil error"
 								continue
 							}
-							if ok2, w := validatedAt(gr.Results[0], point{nil, gr.Block()}, map[ssa.Value]bool{}); !ok2 {
+							if ok2, w := validatedAt(gr.Results[0], point{pred: nil, blk: gr.Block()}, map[ssa.Value]bool{}); !ok2 {
 								okAll, why = false, w
 							}
 						}
@@ -410,11 +528,11 @@ func c07API(r *an.Run) {
 		key := short(f) + "|returned-bytes"
 		if ret.Results[0] == ssa.Value(src) {
 			// the input itself; it was parsed at the top of Apply
-			ok, why := validatedAt(src, point{nil, ret.Block()}, map[ssa.Value]bool{})
+			ok, why := validatedAt(src, point{pred: nil, blk: ret.Block()}, map[ssa.Value]bool{})
 			r.Check(ok, key+"|src", ret.Pos(), "File.Apply returns src only after it parsed (%s)", why)
 			continue
 		}
-		ok, why := validatedAt(ret.Results[0], point{nil, ret.Block()}, map[ssa.Value]bool{})
+		ok, why := validatedAt(ret.Results[0], point{pred: nil, blk: ret.Block()}, map[ssa.Value]bool{})
 		r.Check(ok, key, ret.Pos(), "bytes returned by File.Apply were parsed successfully on every path %s", why)
 	}
 	r.Count("API success returns", n)
